@@ -875,6 +875,31 @@ func AddSecondMatch(t *rapid.T, p *Program) {
 	}
 }
 
+// AddPlainLength gives the root packet, when it has no length-of field yet, a length-of field
+// whose target is a plain member (string, char[n] or number) instead of an object or match
+// field. The compiler accepts that; what the emitted codecs do with it is not examined here
+// (only checks that compare emitted text use it).
+func AddPlainLength(p *Program) bool {
+	root := p.RootPacket()
+	if root == nil {
+		return false
+	}
+	for _, f := range root.Fields {
+		if f.Kind == KLen {
+			return false
+		}
+	}
+	for i, f := range root.Fields {
+		if f.Repeat || (f.Kind != KDyn && f.Kind != KFixed && f.Kind != KScalar) {
+			continue
+		}
+		lf := &Field{Kind: KLen, Name: "Zqlen", Type: "u16", Target: f.Name}
+		root.Fields = insert(root.Fields, i, lf)
+		return true
+	}
+	return false
+}
+
 // AddInlineChain appends a chain root -> Mid (object member) -> inline object -> Leaf (object
 // member): the leaf packet is named only inside an inline object of a packet the root refers to.
 func AddInlineChain(p *Program) {
